@@ -38,6 +38,12 @@ CHECKS.update({
          "driven through the library API (Shell::add_to_history/save_history, fresh interactive Shell on the same HISTFILE), not through a terminal; timestamps compared as present/absent", "DESIGN.md §3 C20"),
 })
 
+CHECKS.update({
+ "C04": ("bounded-exhaustive enumeration + dictionary-based random generation of adversarial values, model oracle (expected argv / file bytes computed by the harness, validated against bash on every case)",
+         "Every value of length <= 2 (quick) / 3 (thorough) over a 32-symbol adversarial alphabet under 8 IFS/glob-option configurations, plus thousands of random concatenations of injection canaries, braces, tildes and nested expansions; each value is injected through the environment and $1 and pushed through ~30 quoting contexts whose expected argv and file bytes the harness computes. Exhaustive within the length bound, exploration beyond.",
+         "values without NUL; custom IFS characters limited to ASCII characters that do not occur in the literal words of the check script (brush also splits literal text at non-whitespace IFS characters: documented upstream gap, outside C04/C05)", "DESIGN.md §3 C04"),
+})
+
 NOT_YET = {}
 
 def hooks():
